@@ -1,79 +1,8 @@
-(** C12 — specification vocabulary and proofs. *)
+(** C12 — proofs about the translators and the entry points of C12/Model.v.  The
+    specification vocabulary is in C12/Spec.v (re-exported: C01 builds on it). *)
 From HV Require Import Base.Prelude Base.ErrChain C12.Model.
+From HV Require Export C12.Spec.
 Local Open Scope Z_scope.
-
-(** ** Specification (transcribed from the property statement) *)
-
-(** the response classes of the statement *)
-Inductive class :=
-| ClAuthn | ClAuthz | ClComm | ClPrecond | ClNoRule
-| ClRedirect (code : Z) (to : string)
-| ClInternal.
-
-(** "a failure of kind k": a value of that kind occurs somewhere in the error
-    value, however deeply nested or wrapped *)
-Definition occurs (t : target) (e : err) : bool := existsb (leaf_is t) (leaves e).
-
-(** kind table with its precedence: authentication, authorization,
-    communication or timeout, precondition, no rule, redirect, anything else *)
-Definition spec_class (e : err) : class :=
-  if occurs (TKind KAuthentication) e then ClAuthn
-  else if occurs (TKind KAuthorization) e then ClAuthz
-  else if occurs (TKind KTimeout) e || occurs (TKind KCommunication) e then ClComm
-  else if occurs (TKind KArgument) e then ClPrecond
-  else if occurs (TKind KNoRule) e then ClNoRule
-  else match first_some leaf_redirect (leaves e) with
-       | Some (c, t) => ClRedirect c t
-       | None => ClInternal
-       end.
-
-Definition default_status (k : class) : Z :=
-  match k with
-  | ClAuthn => 401 | ClAuthz => 403 | ClComm => 502 | ClPrecond => 400 | ClNoRule => 404
-  | ClRedirect c _ => c
-  | ClInternal => 500
-  end.
-
-(** "or the status configured for that kind" *)
-Definition override (c : cfg) (k : class) : Z :=
-  match k with
-  | ClAuthn => ov_authn c | ClAuthz => ov_authz c | ClComm => ov_comm c | ClPrecond => ov_precond c
-  | ClNoRule => ov_norule c | ClInternal => ov_internal c
-  | ClRedirect _ _ => 0
-  end.
-
-Definition spec_status (c : cfg) (e : err) : Z :=
-  let k := spec_class e in if override c k =? 0 then default_status k else override c k.
-
-Definition spec_gcode (k : class) : gcode :=
-  match k with
-  | ClAuthn => GUnauthenticated | ClAuthz => GPermissionDenied | ClComm => GDeadlineExceeded
-  | ClPrecond => GInvalidArgument | ClNoRule => GNotFound | ClRedirect _ _ => GFailedPrecondition
-  | ClInternal => GInternal
-  end.
-
-Definition spec_location (e : err) : option string :=
-  match spec_class e with ClRedirect _ t => Some t | _ => None end.
-
-(** a status a client takes for success: 2xx, and 1xx (net/http sends an
-    informational response and then an implicit 200) *)
-Definition success_like (s : Z) : bool := (100 <=? s) && (s <=? 299).
-
-(** finding C12-F2: the status the specification demands is not a three-digit
-    code (only possible through an override or a redirect code) *)
-Definition guard_F2 (c : cfg) (e : err) : bool := negb (valid_code (spec_status c e)).
-
-(** finding C12-F1: the failure is handled by a www_authenticate error handler *)
-Definition guard_F1 (m : mechanism) : bool := match m with MWWW _ => true | _ => false end.
-
-(** hypotheses of "never a success status" *)
-Definition overrides_not_success (c : cfg) : Prop :=
-  success_like (ov_authn c) = false /\ success_like (ov_authz c) = false /\
-  success_like (ov_comm c) = false /\ success_like (ov_precond c) = false /\
-  success_like (ov_norule c) = false /\ success_like (ov_internal c) = false.
-
-Definition redirects_not_success (e : err) : Prop :=
-  forall z, In z (redirect_codes e) -> success_like z = false.
 
 Definition http_status (r : hresp) : option Z :=
   match r with HResp s _ _ => Some s | HPanic _ => None end.
@@ -97,63 +26,136 @@ Proof.
     [destruct (o_neg_http o) as [m|]; [destruct (body_ne o m)|] |]; destruct (valid_code code); reflexivity.
 Qed.
 
-Ltac classes :=
-  unfold spec_status, spec_class, http_handle, grpc_handle;
-  rewrite ?is_occurs, ?as_redirect_leaves.
-
-(** HTTP: the status is the specified one whenever that is a three-digit code *)
-Lemma http_kind_table c o e h :
-  valid_code (spec_status c e) = true ->
-  exists h' b, http_handle c o e h = HResp (spec_status c e) h' b /\
-               h_location h' = match spec_location e with Some t => Some t | None => h_location h end.
+(** outside finding C12-F2 the override rules of both translators (HTTP: [!= 0],
+    gRPC: [> 0]) select the specified status: the override when it is an HTTP
+    status code, the kind's own status otherwise *)
+Lemma codes_agree ov d :
+  (negb (ov =? 0) && negb (valid_code ov)) = false -> valid_code d = true ->
+  http_code ov d = (if valid_code ov then ov else d) /\
+  grpc_code ov d = (if valid_code ov then ov else d) /\
+  valid_code (if valid_code ov then ov else d) = true.
 Proof.
-  unfold spec_location. classes.
-  destruct (occurs (TKind KAuthentication) e); simpl.
-  { intro V. unfold http_code.
-    pose proof (error_writer_location (c_verbose c) o (if ov_authn c =? 0 then 401 else ov_authn c) h) as L.
-    destruct (error_writer_status (c_verbose c) o _ h V) as (h' & b & E). rewrite E in *. eauto. }
-  destruct (occurs (TKind KAuthorization) e); simpl.
-  { intro V. unfold http_code.
-    pose proof (error_writer_location (c_verbose c) o (if ov_authz c =? 0 then 403 else ov_authz c) h) as L.
-    destruct (error_writer_status (c_verbose c) o _ h V) as (h' & b & E). rewrite E in *. eauto. }
-  destruct (occurs (TKind KTimeout) e || occurs (TKind KCommunication) e); simpl.
-  { intro V. unfold http_code.
-    pose proof (error_writer_location (c_verbose c) o (if ov_comm c =? 0 then 502 else ov_comm c) h) as L.
-    destruct (error_writer_status (c_verbose c) o _ h V) as (h' & b & E). rewrite E in *. eauto. }
-  destruct (occurs (TKind KArgument) e); simpl.
-  { intro V. unfold http_code.
-    pose proof (error_writer_location (c_verbose c) o (if ov_precond c =? 0 then 400 else ov_precond c) h) as L.
-    destruct (error_writer_status (c_verbose c) o _ h V) as (h' & b & E). rewrite E in *. eauto. }
-  destruct (occurs (TKind KNoRule) e); simpl.
-  { intro V. unfold http_code.
-    pose proof (error_writer_location (c_verbose c) o (if ov_norule c =? 0 then 404 else ov_norule c) h) as L.
-    destruct (error_writer_status (c_verbose c) o _ h V) as (h' & b & E). rewrite E in *. eauto. }
-  destruct (occurs TRedirect e) eqn:R.
-  - rewrite <- is_occurs in R. apply is_redirect_as in R as (code & to & A).
-    rewrite as_redirect_leaves in A. rewrite A. simpl. intro V. rewrite V. eauto.
-  - assert (A : first_some leaf_redirect (leaves e) = None).
-    { destruct (first_some leaf_redirect (leaves e)) as [[code to]|] eqn:A; [|reflexivity].
-      rewrite <- as_redirect_leaves in A.
-      assert (is_ TRedirect e = true) by (apply is_redirect_as; eauto).
-      rewrite is_occurs in H. congruence. }
-    rewrite A. simpl. intro V. unfold http_code.
-    pose proof (error_writer_location (c_verbose c) o (if ov_internal c =? 0 then 500 else ov_internal c) h) as L.
-    destruct (error_writer_status (c_verbose c) o _ h V) as (h' & b & E). rewrite E in *. eauto.
+  unfold http_code, grpc_code, valid_code. intros G Hd.
+  destruct (ov =? 0) eqn:E0.
+  - apply Z.eqb_eq in E0. subst. simpl. auto.
+  - simpl in G. apply negb_false_iff in G. unfold valid_code in G. rewrite G.
+    destruct (0 <? ov) eqn:E1; [auto|]. lia.
 Qed.
 
-Lemma grpc_code_http_code ov d : valid_code (http_code ov d) = true -> valid_code d = true ->
-  grpc_code ov d = http_code ov d.
+Lemma ew_branch v o ov d h :
+  (negb (ov =? 0) && negb (valid_code ov)) = false -> valid_code d = true ->
+  exists h' b, error_writer v o (http_code ov d) h = HResp (if valid_code ov then ov else d) h' b /\
+               h_location h' = h_location h.
 Proof.
-  unfold grpc_code, http_code, valid_code. intros H Hd.
-  destruct (ov =? 0) eqn:E0.
-  - apply Z.eqb_eq in E0. subst. reflexivity.
-  - destruct (0 <? ov) eqn:E1; [reflexivity|]. lia.
+  intros G Hd. destruct (codes_agree ov d G Hd) as (E & _ & V). rewrite E.
+  pose proof (error_writer_location v o (if valid_code ov then ov else d) h) as L.
+  destruct (error_writer_status v o _ h V) as (h' & b & W). rewrite W in *. eauto.
 Qed.
 
 Lemma error_response_fields gc code v o :
   g_code (error_response gc code v o) = gc /\ g_status (error_response gc code v o) = code /\
   h_location (g_hdrs (error_response gc code v o)) = None.
 Proof. unfold error_response. destruct v; simpl; auto. Qed.
+
+Lemma er_branch gc v o ov d :
+  (negb (ov =? 0) && negb (valid_code ov)) = false -> valid_code d = true ->
+  exists x, Some (error_response gc (grpc_code ov d) v o) = Some x /\
+            g_status x = (if valid_code ov then ov else d) /\ g_code x = gc /\ h_location (g_hdrs x) = None.
+Proof.
+  intros G Hd. destruct (codes_agree ov d G Hd) as (_ & E & _). rewrite E.
+  eexists; split; [reflexivity|].
+  destruct (error_response_fields gc (if valid_code ov then ov else d) v o) as (A & B & C). auto.
+Qed.
+
+(** the class computed by the specification, read off the tree *)
+Inductive class_view (e : err) : class -> Prop :=
+| CVAuthn : occurs (TKind KAuthentication) e = true -> class_view e ClAuthn
+| CVAuthz : occurs (TKind KAuthentication) e = false -> occurs (TKind KAuthorization) e = true -> class_view e ClAuthz
+| CVComm : occurs (TKind KAuthentication) e = false -> occurs (TKind KAuthorization) e = false ->
+           occurs (TKind KTimeout) e || occurs (TKind KCommunication) e = true -> class_view e ClComm
+| CVPrecond : occurs (TKind KAuthentication) e = false -> occurs (TKind KAuthorization) e = false ->
+           occurs (TKind KTimeout) e || occurs (TKind KCommunication) e = false ->
+           occurs (TKind KArgument) e = true -> class_view e ClPrecond
+| CVNoRule : occurs (TKind KAuthentication) e = false -> occurs (TKind KAuthorization) e = false ->
+           occurs (TKind KTimeout) e || occurs (TKind KCommunication) e = false ->
+           occurs (TKind KArgument) e = false -> occurs (TKind KNoRule) e = true -> class_view e ClNoRule
+| CVRedirect code to : occurs (TKind KAuthentication) e = false -> occurs (TKind KAuthorization) e = false ->
+           occurs (TKind KTimeout) e || occurs (TKind KCommunication) e = false ->
+           occurs (TKind KArgument) e = false -> occurs (TKind KNoRule) e = false ->
+           occurs TRedirect e = true -> as_redirect e = Some (code, to) -> class_view e (ClRedirect code to)
+| CVInternal : occurs (TKind KAuthentication) e = false -> occurs (TKind KAuthorization) e = false ->
+           occurs (TKind KTimeout) e || occurs (TKind KCommunication) e = false ->
+           occurs (TKind KArgument) e = false -> occurs (TKind KNoRule) e = false ->
+           occurs TRedirect e = false -> class_view e ClInternal.
+
+Lemma spec_class_view e : class_view e (spec_class e).
+Proof.
+  unfold spec_class.
+  destruct (occurs (TKind KAuthentication) e) eqn:E1; [constructor; assumption|].
+  destruct (occurs (TKind KAuthorization) e) eqn:E2; [constructor; assumption|].
+  destruct (occurs (TKind KTimeout) e || occurs (TKind KCommunication) e) eqn:E3; [constructor; assumption|].
+  destruct (occurs (TKind KArgument) e) eqn:E4; [constructor; assumption|].
+  destruct (occurs (TKind KNoRule) e) eqn:E5; [constructor; assumption|].
+  destruct (first_some leaf_redirect (leaves e)) as [[code to]|] eqn:A.
+  - rewrite <- as_redirect_leaves in A. apply CVRedirect; try assumption.
+    rewrite <- is_occurs. apply is_redirect_as. eauto.
+  - apply CVInternal; try assumption.
+    destruct (occurs TRedirect e) eqn:R; [|reflexivity].
+    rewrite <- is_occurs in R. apply is_redirect_as in R as (code & to & R).
+    rewrite as_redirect_leaves in R. congruence.
+Qed.
+
+(** both switches, branch by branch, in terms of the specified class *)
+Lemma http_handle_view c o e h k : class_view e k ->
+  http_handle c o e h =
+  match k with
+  | ClAuthn => error_writer (c_verbose c) o (http_code (ov_authn c) 401) h
+  | ClAuthz => error_writer (c_verbose c) o (http_code (ov_authz c) 403) h
+  | ClComm => error_writer (c_verbose c) o (http_code (ov_comm c) 502) h
+  | ClPrecond => error_writer (c_verbose c) o (http_code (ov_precond c) 400) h
+  | ClNoRule => error_writer (c_verbose c) o (http_code (ov_norule c) 404) h
+  | ClRedirect code to =>
+      let h' := {| h_location := Some to; h_www := h_www h; h_ctype := h_ctype h |} in
+      if valid_code code then HResp code h' false else HPanic h'
+  | ClInternal => error_writer (c_verbose c) o (http_code (ov_internal c) 500) h
+  end.
+Proof.
+  unfold http_handle. rewrite !is_occurs.
+  intro V; inversion V; subst;
+    repeat match goal with H : _ = _ |- _ => rewrite H; clear H end; reflexivity.
+Qed.
+
+Lemma grpc_handle_view c o e k : class_view e k ->
+  grpc_handle c o e =
+  match k with
+  | ClAuthn => Some (error_response GUnauthenticated (grpc_code (ov_authn c) 401) (c_verbose c) o)
+  | ClAuthz => Some (error_response GPermissionDenied (grpc_code (ov_authz c) 403) (c_verbose c) o)
+  | ClComm => Some (error_response GDeadlineExceeded (grpc_code (ov_comm c) 502) (c_verbose c) o)
+  | ClPrecond => Some (error_response GInvalidArgument (grpc_code (ov_precond c) 400) (c_verbose c) o)
+  | ClNoRule => Some (error_response GNotFound (grpc_code (ov_norule c) 404) (c_verbose c) o)
+  | ClRedirect code to =>
+      Some {| g_code := GFailedPrecondition; g_status := code;
+              g_hdrs := {| h_location := Some to; h_www := None; h_ctype := None |}; g_body := false |}
+  | ClInternal => Some (error_response GInternal (grpc_code (ov_internal c) 500) (c_verbose c) o)
+  end.
+Proof.
+  unfold grpc_handle. rewrite !is_occurs.
+  intro V; inversion V; subst;
+    repeat match goal with H : _ = _ |- _ => rewrite H; clear H end; reflexivity.
+Qed.
+
+(** HTTP: outside finding C12-F2 the status is the specified one *)
+Lemma http_kind_table c o e h :
+  guard_F2 c e = false ->
+  exists h' b, http_handle c o e h = HResp (spec_status c e) h' b /\
+               h_location h' = match spec_location e with Some t => Some t | None => h_location h end.
+Proof.
+  unfold guard_F2, spec_status, spec_location, spec_status_of.
+  rewrite (http_handle_view c o e h _ (spec_class_view e)).
+  destruct (spec_class e) as [| | | | |code to|]; simpl; intro G;
+    try (apply ew_branch; [exact G | reflexivity]).
+  apply negb_false_iff in G. rewrite G. eauto.
+Qed.
 
 (** gRPC: the denied response carries the specified status, code and Location
     outside the guard of C12-F2 *)
@@ -162,38 +164,11 @@ Lemma grpc_kind_table c o e :
   exists d, grpc_handle c o e = Some d /\ g_status d = spec_status c e /\
             g_code d = spec_gcode (spec_class e) /\ h_location (g_hdrs d) = spec_location e.
 Proof.
-  unfold guard_F2. rewrite negb_false_iff. unfold spec_location. classes.
-  destruct (occurs (TKind KAuthentication) e); simpl.
-  { intro V. eexists; split; [reflexivity|].
-    destruct (error_response_fields GUnauthenticated (grpc_code (ov_authn c) 401) (c_verbose c) o) as (A & B & C).
-    rewrite A, B, C. rewrite grpc_code_http_code; [unfold http_code; auto | exact V | reflexivity]. }
-  destruct (occurs (TKind KAuthorization) e); simpl.
-  { intro V. eexists; split; [reflexivity|].
-    destruct (error_response_fields GPermissionDenied (grpc_code (ov_authz c) 403) (c_verbose c) o) as (A & B & C).
-    rewrite A, B, C. rewrite grpc_code_http_code; [unfold http_code; auto | exact V | reflexivity]. }
-  destruct (occurs (TKind KTimeout) e || occurs (TKind KCommunication) e); simpl.
-  { intro V. eexists; split; [reflexivity|].
-    destruct (error_response_fields GDeadlineExceeded (grpc_code (ov_comm c) 502) (c_verbose c) o) as (A & B & C).
-    rewrite A, B, C. rewrite grpc_code_http_code; [unfold http_code; auto | exact V | reflexivity]. }
-  destruct (occurs (TKind KArgument) e); simpl.
-  { intro V. eexists; split; [reflexivity|].
-    destruct (error_response_fields GInvalidArgument (grpc_code (ov_precond c) 400) (c_verbose c) o) as (A & B & C).
-    rewrite A, B, C. rewrite grpc_code_http_code; [unfold http_code; auto | exact V | reflexivity]. }
-  destruct (occurs (TKind KNoRule) e); simpl.
-  { intro V. eexists; split; [reflexivity|].
-    destruct (error_response_fields GNotFound (grpc_code (ov_norule c) 404) (c_verbose c) o) as (A & B & C).
-    rewrite A, B, C. rewrite grpc_code_http_code; [unfold http_code; auto | exact V | reflexivity]. }
-  destruct (occurs TRedirect e) eqn:R.
-  - rewrite <- is_occurs in R. apply is_redirect_as in R as (code & to & A).
-    rewrite as_redirect_leaves in A. rewrite A. simpl. intro V. eexists; split; [reflexivity|]. simpl. auto.
-  - assert (A : first_some leaf_redirect (leaves e) = None).
-    { destruct (first_some leaf_redirect (leaves e)) as [[code to]|] eqn:A; [|reflexivity].
-      rewrite <- as_redirect_leaves in A.
-      assert (is_ TRedirect e = true) by (apply is_redirect_as; eauto).
-      rewrite is_occurs in H. congruence. }
-    rewrite A. simpl. intro V. eexists; split; [reflexivity|].
-    destruct (error_response_fields GInternal (grpc_code (ov_internal c) 500) (c_verbose c) o) as (A1 & B & C).
-    rewrite A1, B, C. rewrite grpc_code_http_code; [unfold http_code; auto | exact V | reflexivity].
+  unfold guard_F2, spec_status, spec_location, spec_status_of.
+  rewrite (grpc_handle_view c o e _ (spec_class_view e)).
+  destruct (spec_class e) as [| | | | |code to|]; simpl; intro G;
+    try (apply er_branch; [exact G | reflexivity]).
+  eexists; split; [reflexivity|]. simpl. auto.
 Qed.
 
 (** ** C12_kind_table *)
@@ -204,7 +179,6 @@ Theorem kind_table c o e :
              g_code d = spec_gcode (spec_class e) /\ h_location (g_hdrs d) = spec_location e).
 Proof.
   intro G. split; [|apply grpc_kind_table; exact G].
-  unfold guard_F2 in G. rewrite negb_false_iff in G.
   destruct (http_kind_table c o e no_hdrs G) as (h & b & E & L).
   exists h, b. split; [exact E|]. rewrite L. simpl. destruct (spec_location e); reflexivity.
 Qed.
@@ -238,17 +212,19 @@ Qed.
 Lemma success_like_valid s : success_like s = true -> valid_code s = true.
 Proof. unfold success_like, valid_code. lia. Qed.
 
+Lemma spec_status_of_not_success c k :
+  overrides_not_success c -> success_like (default_status k) = false -> success_like (spec_status_of c k) = false.
+Proof.
+  intros (H1 & H2 & H3 & H4 & H5 & H6) D. unfold spec_status_of.
+  destruct (valid_code (override c k)); [|exact D]. destruct k; simpl; auto.
+Qed.
+
 Lemma spec_status_not_success c e :
   overrides_not_success c -> redirects_not_success e -> success_like (spec_status c e) = false.
 Proof.
-  intros (H1 & H2 & H3 & H4 & H5 & H6) HR. unfold spec_status.
-  destruct (spec_class e) as [| | | | |code to|] eqn:K; simpl;
-    try (match goal with |- context [?x =? 0] => destruct (x =? 0) end; (reflexivity || assumption)).
-  apply HR. apply as_redirect_code_In with (t := to). rewrite as_redirect_leaves.
-  unfold spec_class in K.
-  repeat match type of K with (if ?b then _ else _) = _ => destruct b; try discriminate end.
-  destruct (first_some leaf_redirect (leaves e)) as [[c' t']|]; [|discriminate].
-  inversion K; subst. reflexivity.
+  intros HO HR. unfold spec_status. apply spec_status_of_not_success; [exact HO|].
+  pose proof (spec_class_view e) as V. inversion V; simpl; try reflexivity.
+  apply HR. eapply as_redirect_code_In; eauto.
 Qed.
 
 (** the gRPC override rule never selects a success status either, even where it
